@@ -548,59 +548,59 @@ macro_rules! proofs {
     )*};
 }
 
-// @harness c10_new_l3 tier=quick unwind=6 block=256 mem=8 timeout=1200
-// @harness c10_new_l3_reach tier=quick unwind=6 block=256 mem=8 timeout=1200 twin
-// @harness c10_new_l4 tier=thorough unwind=7 block=256 mem=8 timeout=1500
-// @harness c10_mul_rr_2x2 tier=quick unwind=7 block=256 mem=14 timeout=1200
-// @harness c10_mul_rr_2x2_reach tier=quick unwind=7 block=256 mem=8 timeout=1200 twin
-// @harness c10_mul_rv_2x2 tier=quick unwind=7 block=256 mem=14 timeout=1200
-// @harness c10_mul_vr_2x2 tier=quick unwind=7 block=256 mem=14 timeout=1200
-// @harness c10_mul_vv_2x2 tier=quick unwind=7 block=256 mem=14 timeout=1200
+// @harness c10_new_l3 tier=quick unwind=6 block=256 mem=6 timeout=1200
+// @harness c10_new_l3_reach tier=quick unwind=6 block=256 mem=6 timeout=1200 twin
+// @harness c10_new_l4 tier=thorough unwind=7 block=256 mem=8 timeout=1500 stretch
+// @harness c10_mul_rr_2x2 tier=quick unwind=7 block=256 mem=10 timeout=1280
+// @harness c10_mul_rr_2x2_reach tier=quick unwind=7 block=256 mem=6 timeout=1200 twin
+// @harness c10_mul_rv_2x2 tier=quick unwind=7 block=256 mem=10 timeout=1200
+// @harness c10_mul_vr_2x2 tier=quick unwind=7 block=256 mem=10 timeout=1200
+// @harness c10_mul_vv_2x2 tier=quick unwind=7 block=256 mem=10 timeout=1200
 // @harness c10_mul_rr_3x3 tier=thorough unwind=9 block=256 mem=26 timeout=3600 stretch
 // @harness c10_mul_vv_3x2 tier=thorough unwind=8 block=256 mem=26 timeout=3600 stretch
-// @harness c10_mulassign_2x2 tier=quick unwind=7 block=256 mem=14 timeout=1200
-// @harness c10_mulassign_2x2_reach tier=quick unwind=7 block=256 mem=8 timeout=1200 twin
+// @harness c10_mulassign_2x2 tier=quick unwind=7 block=256 mem=10 timeout=1200
+// @harness c10_mulassign_2x2_reach tier=quick unwind=7 block=256 mem=6 timeout=1200 twin
 // @harness c10_mulassign_3x3 tier=thorough unwind=9 block=256 mem=26 timeout=3600 stretch
-// @harness c10_mulgen_ref_l2 tier=quick unwind=6 block=256 mem=8 timeout=1200
-// @harness c10_mulgen_val_l2 tier=quick unwind=6 block=256 mem=8 timeout=1200
-// @harness c10_mulgen_val_l2_reach tier=quick unwind=6 block=256 mem=8 timeout=1200 twin
-// @harness c10_mulgen_ref_l3 tier=thorough unwind=7 block=256 mem=16 timeout=1800
-// @harness c10_inverse_l2 tier=quick unwind=7 block=256 mem=8 timeout=1200
-// @harness c10_inverse_l2_reach tier=quick unwind=7 block=256 mem=8 timeout=1200 twin
-// @harness c10_inverse_l3 tier=thorough unwind=9 block=256 mem=24 timeout=3000
-// @harness c10_cancel_right_l2 tier=quick unwind=7 block=256 mem=14 timeout=1200
-// @harness c10_cancel_left_l2 tier=quick unwind=7 block=256 mem=14 timeout=1200
-// @harness c10_cancel_left_l2_reach tier=quick unwind=7 block=256 mem=8 timeout=1200 twin
+// @harness c10_mulgen_ref_l2 tier=quick unwind=6 block=256 mem=6 timeout=1200
+// @harness c10_mulgen_val_l2 tier=quick unwind=6 block=256 mem=6 timeout=1200
+// @harness c10_mulgen_val_l2_reach tier=quick unwind=6 block=256 mem=6 timeout=1200 twin
+// @harness c10_mulgen_ref_l3 tier=thorough unwind=7 block=256 mem=16 timeout=1800 stretch
+// @harness c10_inverse_l2 tier=quick unwind=7 block=256 mem=6 timeout=1200
+// @harness c10_inverse_l2_reach tier=quick unwind=7 block=256 mem=6 timeout=1200 twin
+// @harness c10_inverse_l3 tier=thorough unwind=9 block=256 mem=24 timeout=3000 stretch
+// @harness c10_cancel_right_l2 tier=quick unwind=7 block=256 mem=10 timeout=1200
+// @harness c10_cancel_left_l2 tier=quick unwind=7 block=256 mem=10 timeout=1200
+// @harness c10_cancel_left_l2_reach tier=quick unwind=7 block=256 mem=6 timeout=1200 twin
 // @harness c10_cancel_right_l3 tier=thorough unwind=9 block=256 mem=26 timeout=3600 stretch
-// @harness c10_identity_left_l2 tier=quick unwind=7 block=256 mem=8 timeout=1200
-// @harness c10_identity_right_l2 tier=quick unwind=7 block=256 mem=8 timeout=1200
-// @harness c10_identity_right_l2_reach tier=quick unwind=7 block=256 mem=8 timeout=1200 twin
-// @harness c10_antihom_1x1 tier=quick unwind=6 block=256 mem=13 timeout=1200
+// @harness c10_identity_left_l2 tier=quick unwind=7 block=256 mem=6 timeout=1200
+// @harness c10_identity_right_l2 tier=quick unwind=7 block=256 mem=6 timeout=1200
+// @harness c10_identity_right_l2_reach tier=quick unwind=7 block=256 mem=6 timeout=1200 twin
+// @harness c10_antihom_1x1 tier=quick unwind=6 block=256 mem=9 timeout=1200
 // @harness c10_antihom_2x1 tier=thorough unwind=7 block=256 mem=26 timeout=3600 stretch
-// @harness c10_assoc_1x1x1 tier=thorough unwind=6 block=256 mem=36 timeout=3600
-// @harness c10_assoc_1x1x1_reach tier=thorough unwind=6 block=256 mem=25 timeout=1200 twin
+// @harness c10_assoc_1x1x1 tier=thorough unwind=6 block=256 mem=36 timeout=3600 stretch
+// @harness c10_assoc_1x1x1_reach tier=thorough unwind=6 block=256 mem=17 timeout=1200 twin
 // @harness c10_assoc_2x1x1 tier=thorough unwind=7 block=256 mem=28 timeout=3600 stretch
-// @harness c10_eq_l2 tier=quick unwind=18 block=256 mem=8 timeout=1200
-// @harness c10_eq_l2_reach tier=quick unwind=18 block=256 mem=8 timeout=1200 twin
-// @harness c10_eq_l3 tier=thorough unwind=26 block=256 mem=8 timeout=1800
-// @harness c10_pow_l1_m2 tier=quick unwind=6 block=256 mem=18 timeout=1200
-// @harness c10_pow_l1_mneg2 tier=quick unwind=6 block=256 mem=18 timeout=1211
-// @harness c10_pow_l1_mneg2_reach tier=quick unwind=6 block=256 mem=10 timeout=1200 twin
-// @harness c10_pow_l2_m0 tier=quick unwind=6 block=256 mem=8 timeout=1200
-// @harness c10_pow_l2_m1 tier=quick unwind=6 block=256 mem=8 timeout=1200
-// @harness c10_pow_l2_mneg1 tier=quick unwind=6 block=256 mem=8 timeout=1200
+// @harness c10_eq_l2 tier=quick unwind=18 block=256 mem=6 timeout=1200
+// @harness c10_eq_l2_reach tier=quick unwind=18 block=256 mem=6 timeout=1200 twin
+// @harness c10_eq_l3 tier=thorough unwind=26 block=256 mem=8 timeout=1800 stretch
+// @harness c10_pow_l1_m2 tier=thorough unwind=6 block=256 mem=13 timeout=1200
+// @harness c10_pow_l1_mneg2 tier=quick unwind=6 block=256 mem=13 timeout=1200
+// @harness c10_pow_l1_mneg2_reach tier=quick unwind=6 block=256 mem=7 timeout=1200 twin
+// @harness c10_pow_l2_m0 tier=quick unwind=6 block=256 mem=6 timeout=1200
+// @harness c10_pow_l2_m1 tier=quick unwind=6 block=256 mem=6 timeout=1200
+// @harness c10_pow_l2_mneg1 tier=quick unwind=6 block=256 mem=6 timeout=1200
 // @harness c10_pow_l2_m2 tier=thorough unwind=8 block=256 mem=26 timeout=3600 stretch
-// @harness c10_commutator_1x1 tier=quick unwind=7 block=256 mem=41 timeout=3252
-// @harness c10_commutator_1x1_reach tier=quick unwind=7 block=256 mem=22 timeout=1200 twin
-// @harness c10_rotated_l2 tier=quick unwind=8 block=256 mem=8 timeout=1200
-// @harness c10_rotated_l2_reach tier=quick unwind=8 block=256 mem=8 timeout=1200 twin
-// @harness c10_rotated_l5 tier=quick unwind=15 block=256 mem=24 timeout=2400
-// @harness c10_rotated_l3 tier=thorough unwind=11 block=256 mem=8 timeout=1800
-// @harness c10_order_l2 tier=quick unwind=5 block=256 mem=8 timeout=1200
-// @harness c10_order_l2_reach tier=quick unwind=5 block=256 mem=8 timeout=1200 twin
-// @harness c10_order_l3 tier=thorough unwind=6 block=256 mem=10 timeout=1800
-// @harness c10_relrep_l1 tier=thorough unwind=6 block=256 mem=46 timeout=3600
-// @harness c10_relrep_l1_reach tier=thorough unwind=6 block=256 mem=24 timeout=1200 twin
+// @harness c10_commutator_1x1 tier=thorough unwind=7 block=256 mem=29 timeout=3012
+// @harness c10_commutator_1x1_reach tier=thorough unwind=7 block=256 mem=16 timeout=1200 twin
+// @harness c10_rotated_l2 tier=quick unwind=8 block=256 mem=6 timeout=1200
+// @harness c10_rotated_l2_reach tier=quick unwind=8 block=256 mem=6 timeout=1200 twin
+// @harness c10_rotated_l5 tier=quick unwind=15 block=256 mem=6 timeout=1200
+// @harness c10_rotated_l3 tier=thorough unwind=11 block=256 mem=8 timeout=1800 stretch
+// @harness c10_order_l2 tier=quick unwind=5 block=256 mem=6 timeout=1200
+// @harness c10_order_l2_reach tier=quick unwind=5 block=256 mem=6 timeout=1200 twin
+// @harness c10_order_l3 tier=thorough unwind=6 block=256 mem=10 timeout=1800 stretch
+// @harness c10_relrep_l1 tier=thorough unwind=6 block=256 mem=46 timeout=3600 stretch
+// @harness c10_relrep_l1_reach tier=thorough unwind=6 block=256 mem=17 timeout=1200 twin
 // @harness c10_relrep_l2 tier=thorough unwind=6 block=256 mem=48 timeout=3600 stretch
 // @harness c10_relrep_l3 tier=thorough unwind=7 block=256 mem=48 timeout=3600 stretch
 // @harness c10_relrep_inv_l2 tier=thorough unwind=6 block=256 mem=48 timeout=3600 stretch
